@@ -164,17 +164,33 @@ func blockedCandidate(gs []gor) (fn, where, state string) {
 // unlock.  Returns the goroutine id so that the caller can require persistence.
 func lockWedge() (id, fn, where, state string, ok bool) {
 	gs := parseGoroutines(allStacks())
-	var cand *gor
+	var cand, root *gor
 	victims := map[string]bool{}
 	for i := range gs {
 		g := &gs[i]
-		if !g.lockParked() {
+		tu, has := g.topUser()
+		if !has || !strings.HasPrefix(tu.name, frugalPkg) {
 			continue
 		}
-		if tu, has := g.topUser(); has && strings.HasPrefix(tu.name, frugalPkg) {
+		f := strings.TrimPrefix(tu.name, frugalPkg)
+		switch {
+		case g.lockParked():
 			victims[g.id] = true
 			if cand == nil {
 				cand = g
+			}
+		case strings.HasPrefix(g.state, "chan send") || strings.HasPrefix(g.state, "chan receive") || strings.HasPrefix(g.state, "select"):
+			// parked on a channel in the library's own code, away from an idle
+			// point: it waits as well (possibly holding the lock the others want)
+			if idleStates[f] != "" && strings.HasPrefix(g.state, idleStates[f]) {
+				continue
+			}
+			if waitFuncs[f] {
+				continue
+			}
+			victims[g.id] = true
+			if root == nil {
+				root = g
 			}
 		}
 	}
@@ -194,8 +210,12 @@ func lockWedge() (id, fn, where, state string, ok bool) {
 		}
 		return // somebody is (or may be) at work inside the library
 	}
-	tu, _ := cand.topUser()
-	return cand.id, strings.TrimPrefix(tu.name, frugalPkg), tu.loc, "[" + cand.state + "]", true
+	rep := cand
+	if root != nil {
+		rep = root // the one the lock waiters wait behind
+	}
+	tu, _ := rep.topUser()
+	return cand.id + "/" + rep.id, strings.TrimPrefix(tu.name, frugalPkg), tu.loc, "[" + rep.state + "]", true
 }
 
 var stackBuf = make([]byte, 1<<18)
